@@ -52,6 +52,8 @@ class Engine:
         self.nbranches = 0
         self._ev_cache = {}
         self._dcache = {}
+        self._vars = {}
+        self._simp = {}
 
     # ------------------------------------------------------------------ solver
     def _check(self, *c):
@@ -92,11 +94,14 @@ class Engine:
         """fork on a boolean; returns the side taken on this path"""
         if isinstance(cond, bool):
             return cond
-        cond = z3.simplify(cond)
-        if z3.is_true(cond):
-            return True
-        if z3.is_false(cond):
-            return False
+        sc = self._simp.get(id(cond))
+        if sc is None:
+            c2 = z3.simplify(cond)
+            sc = (c2, True if z3.is_true(c2) else (False if z3.is_false(c2) else None), cond)
+            self._simp[id(cond)] = sc
+        if sc[1] is not None:
+            return sc[1]
+        cond = sc[0]
         if self.k < len(self.prefix):
             d = self.prefix[self.k]
             if self.model is not None and self.eval_bool(cond) != d:
@@ -127,12 +132,20 @@ class Engine:
     def fresh(self, name, width):
         n = self.fresh_ctr.get(name, 0)
         self.fresh_ctr[name] = n + 1
-        return z3.BitVec(f'{name}#{n}' if n else name, width)
+        k = (name, n, width)
+        v = self._vars.get(k)
+        if v is None:
+            v = self._vars[k] = z3.BitVec(f'{name}#{n}' if n else name, width)
+        return v
 
     def fresh_bool(self, name):
         n = self.fresh_ctr.get(name, 0)
         self.fresh_ctr[name] = n + 1
-        return z3.Bool(f'{name}#{n}' if n else name)
+        k = (name, n, 0)
+        v = self._vars.get(k)
+        if v is None:
+            v = self._vars[k] = z3.Bool(f'{name}#{n}' if n else name)
+        return v
 
     def concretize(self, x, what='value'):
         """fork over the feasible values of scalar x (used for symbolic indices / lengths)"""
